@@ -6,6 +6,7 @@ verifYield points), for ANY number of transactions / goroutines / caches / objec
 any cache limit, with eviction (`Release`, pruning) possible at every moment.
 -/
 import SemaModel.C11.Witness
+import SemaModel.C11.Progress
 import SemaModel.C11.Skeleton
 import SemaModel.Generated.FactsC11
 set_option linter.unusedSimpArgs false
@@ -94,6 +95,40 @@ theorem C11_released {s0 s : St} (hi : Init s0) (hv : s0.v = fixedV) (hr : Reach
             simp [St.unfinished, hlt, Thread.done] at this
             cases hp : (s.thr (.c T)).pc <;> simp [hp] at this <;> simp [stillHeld, hp] at h2
           · rw [ho.wr T (Nat.le_of_not_lt hlt)] at h1; simp at h1
+
+/-! ## C11_progress
+
+Full statement: deadlock freedom of the repaired protocol — in every reachable state in which some
+thread that exists has not finished, some thread can take a step.  Hypotheses: as above, plus
+`dbLock` (bbolt's discipline: at most one transaction is inside its writing phase; a transaction's
+first writing access waits for the database lock, which its committer releases after the join).
+Holds for any number of transactions, goroutines per transaction, caches, any cache limit, callbacks
+and constructors that fail, evictions at any moment.  It is FALSE for the pinned code and for the
+reorder proposed in DESIGN §8 no. 6 (witnesses below); without `dbLock` two transactions writing the
+same caches in opposite order deadlock by design (locks are held until Commit). -/
+
+theorem C11_progress {s0 s : St} (hi : Init s0) (hv : s0.v = fixedV) (hdb : s0.dbLock = true)
+    (hr : Reachable s0 s) (hun : ∃ t, s.unfinished t = true) : ∃ t, enabled s t = true := by
+  obtain ⟨h, ho, hd⟩ := inv_reachable_db hi hv hr
+  have hdb' : s.dbLock = true := by
+    clear hun h ho hd
+    induction hr with
+    | init => exact hdb
+    | step t c _ _ ih => rw [(step_const _ t c).2.2.2.2]; exact ih
+    | evict ns _ ih => exact ih
+  exact progress_core h ho hd hdb' hun
+
+/-- `C11_progress` as the negation of `Deadlocked` -/
+theorem C11_no_deadlock {s0 s : St} (hi : Init s0) (hv : s0.v = fixedV) (hdb : s0.dbLock = true)
+    (hr : Reachable s0 s) : ¬ Deadlocked s := by
+  intro ⟨hun, hall⟩
+  obtain ⟨t, ht⟩ := C11_progress hi hv hdb hr hun
+  rw [hall t] at ht; exact absurd ht (by simp)
+
+/-- the hypotheses of `C11_progress` are satisfiable on the very workload of the pinned deadlock -/
+example : Init (wl86 fixedV) ∧ (wl86 fixedV).v = fixedV ∧ (wl86 fixedV).dbLock = true ∧
+    ∃ t, (wl86 fixedV).unfinished t = true :=
+  ⟨mkInit_Init _ _ _ _ _ (by decide), rfl, rfl, ⟨.w 0, by decide⟩⟩
 
 /-! ## witnesses: the model of the PINNED code (and of the partial repairs) violates the property
 
